@@ -1323,6 +1323,25 @@ def run_real_limit(ctx, marshal, message):
 
 # ---------------------------------------------------------------------------------- corpus / replay
 def replay_case(ctx, marshal, message, data):
+    if data.get('kind2') == 'remarshal':
+        x = {k: data[k] for k in data if k not in ('kind', 'kind2', 'big', 'serial', 'fields')}
+        x['sender'] = None if data.get('kind') != 'foreign' else x.get('sender')
+        if data.get('kind') == 'foreign':
+            fields = fields_from_json(data['fields'])
+            for c, sg, v in fields:
+                if c == 7:
+                    x['sender'] = v
+            flags = (0 if x['er'] else 1) | (0 if x['as'] else 2)
+            raw, fds = R.ref_message(MTYPE[x['cls']], flags, data['serial'], fields, x['signature'], case_abs(x), data['big'])
+            inp = foreign_input(x, data['big'], data['serial'], fields)
+        else:
+            x.setdefault('_what', 'corpus')
+            obs, m, fds = construct_real(message, x)
+            if not obs['ok']:
+                return
+            raw, inp = m.rawMessage, public(x)
+        run_remarshal(ctx, message, [(inp, raw, fds)])
+        return
     kind = data.get('kind', 'build')
     if kind == 'foreign':
         x = {k: data[k] for k in data if k not in ('kind', 'big', 'serial', 'fields')}
